@@ -29,6 +29,7 @@ type balEnv struct {
 	committee                    neotest.Signer // the Alphabet account (2n/3+1 of n)
 	majority                     neotest.Signer // the committee-majority account (n/2+1 of n); = Alphabet for n in {1,2,4}
 	member                       neotest.Signer // one committee member alone
+	validators                   neotest.Signer // the consensus nodes' block-signing account on chains where they are a strict subset of the committee (nil otherwise)
 	former                       neotest.Signer // the Alphabet account before the last committee re-election (nil: none yet)
 	n                            int
 	extra                        int      // number of extra lock addresses in the pool
@@ -80,8 +81,12 @@ func newBalEnvX(t testing.TB, n int, extraLocks int) *balEnv {
 		b.committee, b.majority, b.member = v.E.Committee, v.E.Committee, v.E.Committee
 	} else {
 		vn := NewEnvN(t, n)
+		if n == 6 {
+			vn = NewEnvNV(t, 6, 4) // committee strictly larger than the validator set
+		}
 		v = vn.Env
 		b.committee, b.majority = vn.Alphabet, vn.Majority
+		b.validators = vn.Validators
 		b.member = neotest.NewSingleSigner(wallet.NewAccountFromPrivateKey(vn.Keys[0]))
 		gas := v.E.NativeHash(t, "GasToken")
 		for _, a := range []neotest.Signer{vn.Alphabet, vn.Majority, b.member} {
@@ -102,11 +107,11 @@ func newBalEnvX(t testing.TB, n int, extraLocks int) *balEnv {
 		inv.Invoke(t, nil, "addRecord", name+".neofs", 16, h.StringLE())
 	}
 	nm := v.Compile("netmap")
-	e.DeployContract(t, nm, []any{false, util.Uint160{}, util.Uint160{}, []any{}, []any{}})
+	v.DeployWith(nm, []any{false, util.Uint160{}, util.Uint160{}, []any{}, []any{}}, e.Committee, b.committee)
 	b.netmap = nm.Hash
 	reg("netmap", nm.Hash)
 	bal := v.Compile("balance")
-	e.DeployContract(t, bal, []any{false, util.Uint160{}, util.Uint160{}})
+	v.DeployWith(bal, []any{false, util.Uint160{}, util.Uint160{}}, e.Committee, b.committee)
 	b.balance = bal.Hash
 	reg("balance", bal.Hash)
 	cl := v.CompileHelper("caller")
@@ -138,8 +143,12 @@ func newBalEnvX(t testing.TB, n int, extraLocks int) *balEnv {
 		a[19] = byte(0x80 + i)
 		b.addrs = append(b.addrs, a)
 	}
+	// the all-zero script hash: an ordinary (if unowned) 20-byte account, not "no account"
+	b.addrs = append(b.addrs, make([]byte, 20))
 	return b
 }
+
+func (b *balEnv) zeroIdx() int { return len(b.addrs) - 1 }
 
 const (
 	balNUsers   = 3
@@ -153,7 +162,14 @@ const (
 func (b *balEnv) signerList(idx []int) []neotest.Signer {
 	var out []neotest.Signer
 	for _, i := range idx {
-		if i == -1 {
+		if i == -5 {
+			// the consensus nodes' block-signing account (= the chain's funding account)
+			if b.validators != nil {
+				out = append(out, b.validators)
+			} else {
+				out = append(out, b.E.Validator)
+			}
+		} else if i == -1 {
 			out = append(out, b.committee)
 		} else if i == -2 {
 			out = append(out, b.majority)
@@ -300,10 +316,19 @@ func (b *balEnv) exec(op balOp) balObs {
 // witnessed returns the script hashes for which CheckWitness is true.
 func (b *balEnv) witnessed(op balOp) (hs [][]byte, alpha bool) {
 	for k, i := range op.Signers {
-		if k < len(op.Scopes) && (op.Scopes[k] == 1 || (op.Scopes[k] == 2 && op.Kind == "callerTransfer")) {
-			continue // scope None is no witness anywhere; CalledByEntry is none behind a forwarding contract
+		if k < len(op.Scopes) && (op.Scopes[k] == 1 || (op.Scopes[k] == 2 && (op.Kind == "callerTransfer" || op.Kind == "newEpochNetmap"))) {
+			// scope None is no witness anywhere; CalledByEntry is none behind a forwarding contract —
+			// nor inside Balance when the tick arrives through Netmap
+			continue
 		}
-		if i == -1 {
+		if i == -5 {
+			var f neotest.Signer = b.E.Validator
+			if b.validators != nil {
+				f = b.validators
+			}
+			alpha = alpha || f.ScriptHash() == b.committee.ScriptHash()
+			hs = append(hs, f.ScriptHash().BytesBE())
+		} else if i == -1 {
 			alpha = true
 			hs = append(hs, b.committee.ScriptHash().BytesBE())
 		} else if i == -2 {
@@ -423,6 +448,9 @@ type balGen struct {
 func (g *balGen) addr(i int) []byte { return g.b.addrs[i] }
 
 func (g *balGen) anyAddr() int {
+	if g.r.Intn(14) == 0 {
+		return g.b.zeroIdx()
+	}
 	if g.r.Intn(10) == 0 {
 		return balIdxEmpty + g.r.Intn(3) // malformed
 	}
@@ -436,6 +464,9 @@ func (g *balGen) funded() int {
 			c = append(c, i)
 		}
 	}
+	if z := g.b.zeroIdx(); z < len(g.bal) && g.bal[z].Sign() > 0 {
+		c = append(c, z)
+	}
 	if len(c) == 0 || g.r.Intn(8) == 0 {
 		return g.r.Intn(balIdxEmpty)
 	}
@@ -445,6 +476,9 @@ func (g *balGen) funded() int {
 func (g *balGen) alphaSigners() []int {
 	if g.b.n > 1 && g.r.Intn(4) == 0 {
 		// the committee-majority account or a single member where the Alphabet (2n/3+1) is required
+		if g.b.validators != nil && g.r.Intn(3) == 0 {
+			return []int{-5} // the consensus nodes' block-signing account
+		}
 		return []int{-2 - g.r.Intn(2)}
 	}
 	if g.r.Intn(6) == 0 {
@@ -597,7 +631,11 @@ func (g *balGen) next0(step int) balOp {
 			return balOp{Kind: "newEpochNetmap", Epoch: g.b.epoch + jump, Signers: []int{-1}}
 		}
 		if r.Intn(2) == 0 {
-			return balOp{Kind: "newEpochNetmap", Epoch: g.b.epoch + 1 + int64(r.Intn(2)), Signers: g.alphaSigners()}
+			op := balOp{Kind: "newEpochNetmap", Epoch: g.b.epoch + 1 + int64(r.Intn(2)), Signers: g.alphaSigners()}
+			if r.Intn(8) == 0 {
+				op.Scopes = []int{1 + r.Intn(2)} // the first signer's witness does not reach Balance (None / CalledByEntry)
+			}
+			return op
 		}
 		return balOp{Kind: "newEpoch", Epoch: e, Signers: g.alphaSigners()}
 	}
@@ -775,6 +813,38 @@ func balCorpus(b *balEnv) [][]balOp {
 			{Kind: "lock", From: A, To: L, Amount: n(10), Until: 3, Details: []byte{2}, Signers: al},
 			{Kind: "newEpoch", Epoch: 3, Signers: []int{-3}},
 			{Kind: "newEpoch", Epoch: 3, Signers: al},
+			// the consensus nodes' block-signing account (signer -5) is not the Alphabet where the committee is larger than the validator set
+			{Kind: "burn", From: A, Amount: n(400), Details: []byte{5}, Signers: []int{-5}},
+			{Kind: "transferX", From: A, To: B, Amount: n(10), Details: []byte{5}, Signers: []int{-5}},
+			{Kind: "lock", From: A, To: L2, Amount: n(10), Until: 9, Details: []byte{5}, Signers: []int{-5}},
+			{Kind: "mint", To: B, Amount: n(10), Details: []byte{5}, Signers: []int{-5}},
+			{Kind: "newEpoch", Epoch: 9, Signers: []int{-5}},
+			{Kind: "newEpochNetmap", Epoch: 9, Signers: []int{-5}},
+			{Kind: "transfer", From: A, To: B, Amount: n(10), Signers: []int{-5}},
+			{Kind: "burn", From: A, Amount: n(1), Details: []byte{6}, Signers: al},
+		},
+		{ // the all-zero script hash is an account like any other 20-byte address
+			{Kind: "mint", To: A, Amount: n(1000), Details: []byte{1}, Signers: al},
+			{Kind: "transfer", From: A, To: make([]byte, 20), Amount: n(300), Signers: []int{0}},
+			{Kind: "transferX", From: make([]byte, 20), To: B, Amount: n(100), Details: []byte{2}, Signers: al},
+			{Kind: "transfer", From: make([]byte, 20), To: B, Amount: n(50), Signers: []int{1}},
+			{Kind: "mint", To: make([]byte, 20), Amount: n(40), Details: []byte{3}, Signers: al},
+			{Kind: "burn", From: make([]byte, 20), Amount: n(10), Details: []byte{4}, Signers: al},
+			{Kind: "lock", From: make([]byte, 20), To: L, Amount: n(20), Until: 2, Details: []byte{5}, Signers: al},
+			{Kind: "newEpochNetmap", Epoch: 2, Signers: al},
+			{Kind: "transfer", From: A, To: make([]byte, 20), Amount: n(0), Signers: []int{0}},
+		},
+		{ // a tick sent to Netmap by the Alphabet with a witness that does not reach Balance (CalledByEntry / None): nothing may be half-done
+			{Kind: "mint", To: A, Amount: n(1000), Details: []byte{1}, Signers: al},
+			{Kind: "lock", From: A, To: L, Amount: n(300), Until: 2, Details: []byte{1}, Signers: al},
+			{Kind: "newEpochNetmap", Epoch: 1, Signers: al},
+			{Kind: "newEpochNetmap", Epoch: 2, Signers: al, Scopes: []int{2}},
+			{Kind: "newEpochNetmap", Epoch: 2, Signers: al, Scopes: []int{1}},
+			{Kind: "newEpochNetmap", Epoch: 2, Signers: []int{0, -1}, Scopes: []int{0, 2}},
+			{Kind: "newEpoch", Epoch: 2, Signers: al, Scopes: []int{2}},
+			{Kind: "lock", From: A, To: L2, Amount: n(100), Until: 2, Details: []byte{2}, Signers: al},
+			{Kind: "newEpochNetmap", Epoch: 2, Signers: al},
+			{Kind: "newEpochNetmap", Epoch: 3, Signers: al},
 		},
 	}
 }
@@ -1121,9 +1191,12 @@ func runBalanceFamily(t *testing.T, prop string) {
 		b0 := newBalEnv(t, 1)
 		nc := len(balCorpus(b0))
 		for ci := 0; ci < nc; ci++ {
-			for _, ncomm := range []int{1, 3} {
-				if ncomm == 3 && balCorpusExtra(ci) > 0 {
+			for _, ncomm := range []int{1, 3, 6} {
+				if ncomm != 1 && balCorpusExtra(ci) > 0 {
 					continue // the many-locks histories do not depend on the committee
+				}
+				if ncomm == 6 && ci != nc-3 && ci != nc-1 {
+					continue // 6 committee keys with 4 consensus nodes: the gate histories only
 				}
 				ci := ci
 				run(-1-ci, ncomm, func(b *balEnv, step int, g *balGen) (balOp, bool) {
@@ -1141,6 +1214,9 @@ func runBalanceFamily(t *testing.T, prop string) {
 		ncomm := 1
 		if h%3 == 2 {
 			ncomm = 3
+		}
+		if h%11 == 10 {
+			ncomm = 6
 		}
 		run(h, ncomm, func(b *balEnv, step int, g *balGen) (balOp, bool) {
 			if step >= n {
